@@ -143,17 +143,31 @@ def _show(p):
     return "%s %s 0" % (s, "<" if p[0] == "ord" else "==")
 
 
+def _links(cmpnode):
+    """comparison links (left, op, right) of a Compare; `x in range(a[, b])` reads as  a0 <= x  and  x < b"""
+    out = []
+    left = cmpnode.left
+    for op, right in zip(cmpnode.ops, cmpnode.comparators):
+        if isinstance(op, (ast.In, ast.NotIn)) and isinstance(right, ast.Call) and isinstance(right.func, ast.Name) and right.func.id == "range" and 1 <= len(right.args) <= 2 and not right.keywords:
+            lo = ast.Constant(value=0) if len(right.args) == 1 else right.args[0]
+            hi = right.args[-1]
+            out.append((lo, ast.LtE(), left))
+            out.append((left, ast.Lt(), hi))
+        else:
+            out.append((left, op, right))
+        left = right
+    return out
+
+
 def comparisons(fnode, ctx):
     """every comparison link of the function: (partition, node, text)"""
     res = []
     for n in ast.walk(fnode):
         if isinstance(n, ast.Compare):
-            left = n.left
-            for op, right in zip(n.ops, n.comparators):
+            for left, op, right in _links(n):
                 p = partition(left, op, right, ctx)
                 if p is not None:
                     res.append((p, n, norm(n)))
-                left = right
     return res
 
 
@@ -166,12 +180,7 @@ def row_links(text):
         t = t.operand
     if not isinstance(t, ast.Compare):
         raise AnalysisError("boundaries.json: %r is not a comparison" % text)
-    links = []
-    left = t.left
-    for op, right in zip(t.ops, t.comparators):
-        links.append((left, op, right))
-        left = right
-    return links
+    return _links(t)
 
 
 def _names(e):
